@@ -531,7 +531,7 @@ theorem honest_blockgrowth_is_writers (C : Crypto) (bs : Array Bytes) (n : Nat) 
     its extra slot exactly when its turn comes and reports it as consumed, so no stored node is compared); the changeset
     holds the reference roots, length and byte length of `n` and the signature, is commitable, records reference nodes
     only, and committing it leaves the replica's tree closed (`ClosedAt`: every stored node below a root has its sibling
-    and parent stored).  (Byte offset and commit at core level for this shape are covered by the run.) -/
+    and parent stored).  (The application at core level: `new_block_with_upgrade_applied`.) -/
 theorem honest_new_block_with_upgrade_accepted (C : Crypto) (hC : TreeStore.HashWF C) (bs : Array Bytes) (m n : Nat) (c : Core) (d : Disk)
     (held : Nat → Bool) (h : Growth.RepRAt C bs m c d held) (hm0 : 0 < m) (hmn : m < n) (hn : n ≤ bs.size) (us : List (Nat × Nat))
     (hup : Growth.Up m 0 (RefTree.rootsStack n).reverse us) (sig : Bytes) (hsl : sig.length = 64)
@@ -548,13 +548,38 @@ theorem honest_new_block_with_upgrade_accepted (C : Crypto) (hC : TreeStore.Hash
     BlockNew.honest_new_block_upgrade_accepted C hC bs m n c d held h hm0 hmn hn us hup sig hsl hver i hmi hi
   exact ⟨a, b, k, cs', h1, h2, h3, h4, h5, h6, h7, h8, h9, h10, h11, h12, h13⟩
 
-/-- **the next block + upgrade in one proof, at core level** — the live-download step.  For every replica state that satisfies
-    the invariants (length `m > 0`) and every upgrade `m → n` of the writer's log: block `m` lies under exactly one node
-    `(k, m / 2^k)` of the honest position list (`BlockGrowGen.nextblock_split`), and for that split `verify_and_apply_proof` on
-    the writer's answer to "block `m` and upgrade me to `n`" returns `true`; the block's byte offset is the replica's byte
-    length, one entry carries nodes + upgrade + bitfield update; afterwards the replica shows the first `n` blocks of
-    the writer's log with block `m` held, and the invariants hold again (reopen: `replica_reopens`' machinery; crashes:
-    `C02.replica_nextblock_crash_atomic`). -/
+/-- **a block of the new part + upgrade in one proof, at core level** — the download step.  For every replica state that
+    satisfies the invariants (length `m > 0`), every upgrade `m → n` of the writer's log and every block `m ≤ i < n`: the
+    block lies under exactly one node `(k, i / 2^k)` of the honest position list (`BlockNew.split_exists`), and for that
+    split `verify_and_apply_proof` on the writer's answer to "block `i` and upgrade me to `n`" returns `true`; the block's
+    byte offset is computed under the changeset's node list (the block's path, then the upgrade's nodes) and its new roots
+    (`BlockNewOffset.offset_new_block`) and is the writer's; one entry carries nodes + upgrade + bitfield update;
+    afterwards the replica shows the first `n` blocks of the writer's log with block `i` held, and the invariants hold again
+    (so the step reopens, and is crash-atomic: `C02.replica_newblock_crash_atomic`).  With `block_with_upgrade_applied`
+    (blocks below `m`) this covers every block + upgrade proof. -/
+theorem new_block_with_upgrade_applied (C : Crypto) (hC : TreeStore.HashWF C) (hT : TreeStore.TreeWF C) (bs : Array Bytes) (m n : Nat) (c : Core) (d : Disk)
+    (held : Nat → Bool) (h : ReplicaReopen.RP C bs m c d held) (hm0 : 0 < m) (hmn : m < n) (hn : n ≤ bs.size) (us : List (Nat × Nat))
+    (hup : Growth.Up m 0 (RefTree.rootsStack n).reverse us) (sig : Bytes) (hsl : sig.length = 64)
+    (hver : C.verify c.publicKey (Growth.signableAt C bs n c.tree.fork) sig = true) (i : Nat) (hmi : m ≤ i) (hi : i < n)
+    (a b : List (Nat × Nat)) (k : Nat) (hsplit : us = a ++ (k, i / 2 ^ k) :: b) :
+    let st := c.verifyAndApply C d (BlockGrowGen.honestNewBlock C bs c.tree.fork i m n a b k sig)
+    st.result = .ok true
+      ∧ st.core.tree.length = n ∧ st.core.tree.byteLength = Offsets.psum bs n
+      ∧ (st.core.getBlock (d.applyAll st.journal) i).result = .ok (some (bs.getD i []))
+      ∧ (∀ j, held j = true → (st.core.getBlock (d.applyAll st.journal) j).result = .ok (some (bs.getD j [])))
+      ∧ (∀ j, st.core.has j = (held j || j == i))
+      ∧ ReplicaReopen.RP C bs n st.core (d.applyAll st.journal) (fun j => held j || j == i) := by
+  intro st
+  obtain ⟨c1, e, j0, hk⟩ := BlockGrowGen.newblock_ok C hC hT bs m n c d held h hm0 hmn hn us hup sig hsl hver i hmi hi a b k hsplit
+  obtain ⟨r1, r2, _, _⟩ := ReplicaReopen.rp_of_ok C bs m n c c1 d held _ _ e j0 h hk
+  refine ⟨r1, r2.rep.closed.sparse.length, r2.rep.bytes, ?_, ?_, ?_, r2⟩
+  · exact Growth.get_held_at C bs n _ _ _ r2.rep i (by simp)
+  · intro j hj
+    exact Growth.get_held_at C bs n _ _ _ r2.rep j (by simp [hj])
+  · intro j
+    simpa [Core.has] using r2.rep.bits j
+
+/-- the next block (`i = m`): the live-download step -/
 theorem next_block_with_upgrade_applied (C : Crypto) (hC : TreeStore.HashWF C) (hT : TreeStore.TreeWF C) (bs : Array Bytes) (m n : Nat) (c : Core) (d : Disk)
     (held : Nat → Bool) (h : ReplicaReopen.RP C bs m c d held) (hm0 : 0 < m) (hmn : m < n) (hn : n ≤ bs.size) (us : List (Nat × Nat))
     (hup : Growth.Up m 0 (RefTree.rootsStack n).reverse us) (sig : Bytes) (hsl : sig.length = 64)
@@ -566,16 +591,12 @@ theorem next_block_with_upgrade_applied (C : Crypto) (hC : TreeStore.HashWF C) (
       ∧ (st.core.getBlock (d.applyAll st.journal) m).result = .ok (some (bs.getD m []))
       ∧ (∀ j, held j = true → (st.core.getBlock (d.applyAll st.journal) j).result = .ok (some (bs.getD j [])))
       ∧ (∀ j, st.core.has j = (held j || j == m))
-      ∧ ReplicaReopen.RP C bs n st.core (d.applyAll st.journal) (fun j => held j || j == m) := by
-  intro st
-  obtain ⟨c1, e, j0, hk⟩ := BlockGrowGen.nextblock_ok C hC hT bs m n c d held h hm0 hmn hn us hup sig hsl hver a b k hsplit
-  obtain ⟨r1, r2, _, _⟩ := ReplicaReopen.rp_of_ok C bs m n c c1 d held _ _ e j0 h hk
-  refine ⟨r1, r2.rep.closed.sparse.length, r2.rep.bytes, ?_, ?_, ?_, r2⟩
-  · exact Growth.get_held_at C bs n _ _ _ r2.rep m (by simp)
-  · intro j hj
-    exact Growth.get_held_at C bs n _ _ _ r2.rep j (by simp [hj])
-  · intro j
-    simpa [Core.has] using r2.rep.bits j
+      ∧ ReplicaReopen.RP C bs n st.core (d.applyAll st.journal) (fun j => held j || j == m) :=
+  new_block_with_upgrade_applied C hC hT bs m n c d held h hm0 hmn hn us hup sig hsl hver m (Nat.le_refl _) hmn a b k hsplit
+
+/-- non-vacuity of the split: every block of the new part lies under exactly one node of the honest position list -/
+example (m n : Nat) (us : List (Nat × Nat)) (hup : Growth.Up m 0 (RefTree.rootsStack n).reverse us) (i : Nat) (hmi : m ≤ i) (hi : i < n) :
+    ∃ (a b : List (Nat × Nat)) (k : Nat), us = a ++ (k, i / 2 ^ k) :: b := BlockNew.split_exists m n us hup i hmi hi
 
 /-- non-vacuity of the split -/
 example (m n : Nat) (hmn : m < n) (us : List (Nat × Nat)) (hup : Growth.Up m 0 (RefTree.rootsStack n).reverse us) :
